@@ -212,6 +212,26 @@ def pred_names_subcommand_after_flag(f):
         (b":rejected:unknown flag" in d or b":rejected:unknown shorthand" in d or b":dispatched-to-" in d or b":rejected:flag needs an argument" in d)
 
 
+def _bridge_words(f):
+    """typed words of a bridge case (the list before the final current word)"""
+    c = f["case"]
+    # the words list is the last list in the case: scan from the end for a count that fits
+    for k in range(len(c) - 2, -1, -1):
+        try:
+            n = int(c[k])
+        except ValueError:
+            continue
+        if k + 1 + n == len(c) - 1:
+            return c[k + 1:k + 1 + n]
+    return []
+
+
+def pred_bridge_first_word_after_dash(f):
+    """carapace registration (A); the only `--` of the line is the last typed word"""
+    ws = _bridge_words(f)
+    return f["case"][0] == b"A" and len(ws) > 0 and ws[-1] == b"--" and b"--" not in ws[:-1]
+
+
 def pred_slot_chain_before_subcommand(f):
     """a chain of shorthands (-abc, no `=`) typed before a sub-command name"""
     import re
@@ -220,6 +240,17 @@ def pred_slot_chain_before_subcommand(f):
 
 
 PROPS = {
+    "C20": dict(streams=[dict(harness="bridge", model=None, oracle="bridge_oracle", quick=3000, thorough=40000,
+                              nontrivial=lambda f, impl: len(impl) > 3)],
+                tie="Model/Bridge.v cobra_values / cobra_directive / directive_to_action evaluated (extracted) on what the real program serves <-> real `__complete` and real `_carapace export` of the same registration and line",
+                rule="A (3/5): a cobra command with --str and --bool; PositionalCompletion for 0-2 positions, optionally PositionalAny, DashCompletion for 0-2 positions, optionally "
+                     "DashAny, a flag completion for --str; every action = 1-3 described values (values ending in / : = blank, non-ASCII; descriptions empty, with colons, "
+                     "tabs, leading blanks) with no-space suffix sets {none, /, /:, *, =}; 0-3 typed words out of {w1 w2 w3 v -- --str v --str=v --bool}; current word empty or a letter. "
+                     "`__complete words cur` must print exactly the model's value/description strings for the values `_carapace export` serves at that position, and the model's directive. "
+                     "B (2/5): a cobra completion function (ValidArgsFunction or RegisterFlagCompletionFunc) answering 0-2 values (with tab-separated descriptions, several tabs) and every "
+                     "combination of the directive bits Error NoSpace NoFileComp FilterFileExt FilterDirs, in a scratch directory with files and nested directories; the export must equal "
+                     "the model's reading: the error message, the export of the same slot registered directly with ActionDirectories[.Chdir(first value)][.NoSpace()] / "
+                     "ActionFiles(.ext...)[.NoSpace()], or the values with descriptions and no-space `*`"),
     "C07": dict(streams=[dict(harness="names", model=None, oracle="names_oracle", quick=5000, thorough=60000,
                               nontrivial=lambda f, impl: len(impl) > 1 and impl[1] in (b"names", b"subs"))],
                 tie="Model/Flags.v names_offered / subcommand_names evaluated (extracted) on the flag set and given flags of the resolved command <-> the names the real `_carapace export` offers on the same tree and line",
